@@ -240,3 +240,97 @@ func checkC09BadPositional(c *Ctx, n int) {
 		})
 	}
 }
+
+// checkC09Shadowed: a required option of an outer level whose names a selected command declares again
+// for an option of its own (legal: duplicates are refused within one command only).  The inner option
+// answers to the name from the command word on - but it is another option: the outer one is still
+// required, and without it nothing may run.
+func checkC09Shadowed(c *Ctx, n int) {
+	r := c.Rng
+	for i := 0; i < n; i++ {
+		withShort := r.Intn(2) == 0
+		outerTag, innerTag := `long:"name" required:"yes"`, `long:"name"`
+		if withShort {
+			outerTag, innerTag = `long:"name" short:"n" required:"true"`, `short:"n" long:"name"`
+		}
+		depth := 1 + r.Intn(2)
+		// the required option sits on the parser or (depth 2) on the intermediate command
+		holder := r.Intn(depth)
+		inner := &StructDesc{Fields: []FieldDesc{{Name: "InnerName", Exported: true, Kind: "v", Ty: "str", Tag: innerTag},
+			{Name: "Other", Exported: true, Kind: "v", Ty: "bool", Tag: `long:"other"`}}}
+		sd := inner
+		path := []string{}
+		for l := depth; l >= 1; l-- {
+			st := &StructDesc{}
+			if holder == l-1 {
+				st.Fields = append(st.Fields, FieldDesc{Name: "OuterName", Exported: true, Kind: "v", Ty: "str", Tag: outerTag})
+			}
+			st.Fields = append(st.Fields, FieldDesc{Name: fmt.Sprintf("C%d", l), Exported: true, Kind: "s", Sub: sd, Tag: fmt.Sprintf(`command:"cmd%d"`, l)})
+			sd = st
+			path = append([]string{fmt.Sprintf("cmd%d", l)}, path...)
+		}
+		cs := &Case{Name: "app", NsDelim: ".", EnvNsDelim: "_", CmdHandler: true}
+		if r.Intn(2) == 0 {
+			cs.Opts |= flags.PrintErrors
+		}
+		cs.Build = []BuildOp{{Kind: "addgroup", Target: 1, Short: "Application Options", Struct: sd}}
+		// the outer option is given (in front of the word of the command below its holder) or not
+		given := r.Intn(3) == 0
+		var argv []string
+		for l, w := range path {
+			if given && l == holder {
+				argv = append(argv, []string{"--name=outer", "--name", "-n"}[r.Intn(3)])
+				if !strings.Contains(argv[len(argv)-1], "=") {
+					if argv[len(argv)-1] == "-n" && !withShort {
+						argv[len(argv)-1] = "--name"
+					}
+					argv = append(argv, "outer")
+				}
+			}
+			argv = append(argv, w)
+		}
+		switch r.Intn(4) {
+		case 0:
+			argv = append(argv, "--name=inner")
+		case 1:
+			argv = append(argv, "--other", "rest")
+		case 2:
+			argv = append(argv, "rest")
+		}
+		cs.Ops = []Op{{Kind: "parse", Args: argv}}
+		cs.Description = describeOps(cs)
+		c.RunCases([]*Case{cs}, func(cr *CaseResult) {
+			c.classifyCase(cr)
+			c.Class(fmt.Sprintf("c09/shadowed-required: depth=%d holder=%d short=%v given=%v", depth, holder, withShort, given))
+			var obs parseObs
+			for _, o := range parseBlocks(cr) {
+				obs = o
+			}
+			nHandler := 0
+			for _, l := range obs.logs {
+				if strings.HasPrefix(l, "LOG cmdhandler ") {
+					nHandler++
+				}
+			}
+			in := map[string]interface{}{"case": cs.Description, "argv": argv, "required_option_declared_at_level": holder, "same_names_declared_by_command": path[len(path)-1]}
+			got := fmt.Sprintf("%s %s type %d %q, %d CommandHandler calls", obs.panic, obs.errKind, obs.errType, obs.errMsg, nHandler)
+			var ok bool
+			want := "ErrRequired naming the outer option, no CommandHandler call"
+			if given {
+				ok = obs.panic == "" && obs.errKind == "ok" && nHandler == 1
+				want = "success, one CommandHandler call"
+			} else {
+				nm := "`--name'"
+				if withShort {
+					nm = "`-n, --name'"
+				}
+				ok = obs.panic == "" && obs.errKind == "flags" && obs.errType == int(flags.ErrRequired) && nHandler == 0 &&
+					obs.errMsg == "the required flag "+nm+" was not specified"
+			}
+			if !ok {
+				in["case_file"] = c.saveCase(cr)
+			}
+			c.Check("a-shadowed-required-option-is-still-required", ok, "C09:shadowed-required", in, got, want)
+		})
+	}
+}
